@@ -133,6 +133,9 @@ def _matches_call_expression_pattern(
     if node.type != "call_expression":
         return False
 
+    if _is_inside_callback_body(node, ts_start, ts_end):
+        return False  # statements of a function passed to the call are ordinary code
+
     node_start = node.start_point[0]
     node_end = node.end_point[0]
     is_multiline = node_start < node_end
@@ -140,6 +143,21 @@ def _matches_call_expression_pattern(
         return True
 
     return contains
+
+
+def _is_inside_callback_body(call_node: Node, ts_start: int, ts_end: int) -> bool:
+    """Check if the lines lie inside the body of a function given as an argument of the call."""
+    arguments = call_node.child_by_field_name("arguments")
+    if arguments is None:
+        return False
+    function_types = ("arrow_function", "function", "function_expression")
+    for argument in arguments.children:
+        if argument.type not in function_types:
+            continue
+        body = argument.child_by_field_name("body")
+        if body is not None and body.start_point[0] < ts_start and ts_end < body.end_point[0]:
+            return True
+    return False
 
 
 def _matches_declaration_pattern(node: Node, contains: bool) -> bool:
